@@ -535,7 +535,10 @@ impl<'p, W, R, T> CompilationScope<'p, W, R, T> {
     /// the first unfulfilled forward function behind a requirement: the forward function itself, or - when it has
     /// been implemented - one that its implementation (transitively) depends on. A function that was defined
     /// while `freq` was pending only recorded `freq`; what the later implementation of `freq` needs counts too
-    fn unfulfilled_behind(&self, freq: &ForwardRefRequirement) -> Option<ForwardRefRequirement> {
+    pub(crate) fn unfulfilled_behind(
+        &self,
+        freq: &ForwardRefRequirement,
+    ) -> Option<ForwardRefRequirement> {
         let mut pending = vec![*freq];
         let mut seen = BTreeSet::new();
         while let Some(freq) = pending.pop() {
